@@ -14,7 +14,10 @@ SEEDED = os.path.join(VERIF, "seeded")
 
 
 def sh(cmd, **kw):
-    p = subprocess.run(cmd, stdout=subprocess.PIPE, stderr=subprocess.STDOUT, text=True, **kw)
+    try:
+        p = subprocess.run(cmd, stdout=subprocess.PIPE, stderr=subprocess.STDOUT, text=True, **kw)
+    except subprocess.TimeoutExpired as e:
+        return 124, "TIMEOUT after %ss" % e.timeout
     return p.returncode, p.stdout
 
 
@@ -40,7 +43,7 @@ def main():
                 extra += "pytest:%s " % ("pass" if rc == 0 else "FAIL")
                 demo = os.path.join(d, "demo.py")
                 if os.path.exists(demo):
-                    rc, out = sh(["/venv/bin/python", demo], env=dict(os.environ, REPO=wt, PYTHONPATH=wt), timeout=600)
+                    rc, out = sh(["/venv/bin/python", demo], env=dict(os.environ, REPO=wt, PYTHONPATH=wt), timeout=300)
                     extra += "demo-with-change:%s " % ("fails(as it should)" if rc != 0 else "PASSES(!)")
                     rc, out = sh(["/venv/bin/python", demo], env=dict(os.environ, REPO="/repo", PYTHONPATH="/repo"), timeout=600)
                     extra += "demo-clean:%s " % ("passes" if rc == 0 else "FAILS(!)")
@@ -56,6 +59,7 @@ def main():
             meta["last_run"] = {"verdict": verdict, "how": how, "details": extra.strip(),
                                 "violation_lines": viol[:3], "repo_head": sh(["git", "-C", "/repo", "rev-parse", "--short", "HEAD"])[1].strip()}
             json.dump(meta, open(os.path.join(d, "meta.json"), "w"), indent=1)
+            print("%s  %s  %-8s %s" % rows[-1], flush=True)
             if verdict.startswith("ERROR"):
                 print(out[-1500:])
         finally:
